@@ -36,8 +36,18 @@ def gen_corpus(seed, tier):
     jobs = []
     for j in range(njobs):
         rng = Rng(seed, "hashsim/job%d" % j)
-        kind = rng.weighted([("graph", 6), ("src", 3), ("bc", 1.5), ("bcref", 1.5)])
-        if kind == "graph":
+        kind = rng.weighted([("graph", 6), ("src", 3), ("bc", 1.5), ("bcref", 1.5), ("reload", 2.5)])
+        if kind == "reload":
+            # a partly restructured graph written out and read back before the
+            # remaining stages: the input then carries generated-looking names
+            # (what a process did to such names before must not matter)
+            fam = rng.choice(["rand", "struct", "irred", "irred"])
+            n = rng.randint(4, nmax)
+            style = rng.weighted([("frontend", 3), ("generator", 2), ("adversarial", 2)])
+            jobs.append({"kind": "reload", "family": fam, "after_stage": rng.choice([1, 2, 2, 2]),
+                         "fmt": rng.choice(["dict", "dict", "yaml"]),
+                         "blocks": graphgen.gen_graph(rng.fork("g"), fam, n, style)})
+        elif kind == "graph":
             fam = rng.choice(["rand", "struct", "irred", "irred"])
             n = rng.randint(4, nmax)
             style = rng.weighted([("frontend", 4), ("generator", 3), ("bytecode", 2)])
@@ -91,6 +101,21 @@ def exec_job(job):
             out.append(hier.digest_ordered(g))
             g.restructure_branch()
             out.append(hier.digest_ordered(g))
+        elif kind == "reload":
+            from numba_scfg.core.datastructures.scfg import SCFG
+            from sim.cosim import apply_stage
+            g = graphgen.build_scfg(job["blocks"])
+            for st in range(1, job["after_stage"] + 1):
+                apply_stage(g, st)
+            out.append(hier.digest_ordered(g))
+            if job["fmt"] == "dict":
+                g = SCFG.from_dict(g.to_dict())[0]
+            else:
+                g = SCFG.from_yaml(g.to_yaml())[0]
+            out.append(hier.digest_ordered(g))
+            for st in range(job["after_stage"] + 1, 4):
+                apply_stage(g, st)
+            out.append(hier.digest_ordered(g))
         elif kind == "src":
             from numba_scfg.core.datastructures.ast_transforms import AST2SCFG, SCFG2AST
             g = AST2SCFG(job["source"])
@@ -111,7 +136,7 @@ def exec_job(job):
 
 
 def job_names(job):
-    if job["kind"] == "graph":
+    if job["kind"] in ("graph", "reload"):
         return [d[0] for d in job["blocks"]]
     return None
 
@@ -135,7 +160,7 @@ def node_exec(spec):
 # ---------------------------------------------------------------- parent side
 
 def _nontrivial_job(job):
-    if job["kind"] != "graph":
+    if job["kind"] not in ("graph", "reload"):
         return True
     succ = {d[0]: d[2] for d in job["blocks"]}
     return any(len(t) > 1 for t in succ.values())
@@ -256,7 +281,7 @@ def minimise(jobs, j, pa, pb, seed, budget=60):
         progress = True
         while progress and time.time() - t0 < budget:
             progress = False
-            if cur["kind"] == "graph":
+            if cur["kind"] in ("graph", "reload"):
                 cands = [dict(cur, blocks=b) for b in reducers.shrink_graph(cur["blocks"])][:60]
             elif cur["kind"] in ("src", "bc"):
                 cands = [dict(cur, source=s) for s in reducers.shrink_source(cur["source"])][:60]
